@@ -10,7 +10,6 @@ import (
 	"runtime/debug"
 	"strings"
 	"sync"
-	"time"
 )
 
 // Decider supplies every nondeterministic decision of one execution.
@@ -96,11 +95,10 @@ func Run(dec Decider, horizon int, main func()) Outcome {
 	close(s.abort)
 	done := make(chan struct{})
 	go func() { s.wg.Wait(); close(done) }()
-	select {
-	case <-done:
-	case <-time.After(30 * time.Second):
-		// a thread is stuck in an operation outside scheduler control
-		out = Outcome{Kind: "stuck", Detail: "a controlled thread did not stop within 30 s after the execution ended (blocked outside scheduler control); previous outcome: " + out.Kind + " " + out.Detail, Steps: s.steps, Trace: s.traceTail()}
+	if !waitDone(done, 30) {
+		// a thread is stuck in an operation outside scheduler control: the whole process has been blocked (no
+		// runnable OS thread, no CPU consumed) for 30 consecutive seconds; a slow machine never gets here
+		out = Outcome{Kind: "stuck", Detail: "a controlled thread did not stop after the execution ended and the process stayed blocked for 30 s (blocked outside scheduler control); previous outcome: " + out.Kind + " " + out.Detail, Steps: s.steps, Trace: s.traceTail()}
 		buf := make([]byte, 1<<16)
 		out.Stack = string(buf[:runtime.Stack(buf, true)])
 	}
